@@ -44,7 +44,7 @@ too_short between inside beyond outside from_to range get put debug log brief_st
 header_table row_table var_table run_table empty_stack line_fingerprint file_fingerprint counter""".split()
 QUALS = ["onmatch", "onchange", "asbool", "nocontrib", "latch", "increase", "decrease", "notnone", "once", "distinct"]
 ARB = ["total", "my_name", "k9", "x"]
-HEADERS = ["a", "b2", "first_name", "Order Number", "x_y", "0", "12", "Last Year Number"]
+HEADERS = ["a", "b2", "first_name", "Order Number", "x_y", "0", "12", "Last Year Number", ".ext", "a.b", "v1.2 beta", "No."]
 STRCH = list("abcXYZ 019_-+*/\\!?,;:%&()<>{}|^@#'`.=$[]")
 _FNS = None
 
